@@ -107,11 +107,17 @@ def report_violations(r, recs, theorem):
             key = "names|%s|%s" % (v["kind"], v["src"])
             what = "name resolution (%s): expected %s, got %s for %r" % (v["kind"], v["expect"], v["got"], v["src"])
         else:
-            key = "%s|%s|%s|%s" % (v["violation"], v.get("fam"), v["src1"], v["src2"])
+            if v["violation"] == "compile-outcome":
+                # the class of the compile error is part of the key (known findings match on it)
+                key = "compile-outcome|%s|%s|%s|%s" % (v.get("fam"), re.sub(r"\d+", "N", v["res1"])[:70], v["src1"], v["src2"])
+            else:
+                key = "%s|%s|%s|%s" % (v["violation"], v.get("fam"), v["src1"], v["src2"])
             what = "naming changes behaviour (%s, %s): P gives %s, P' gives %s" % (v.get("fam"), v.get("what"), v["res1"][:200], v["res2"][:200])
         if key in seen:
             continue
         seen.add(key)
+        if len(seen) > 25 and not r.match_known(key):
+            continue            # enough concrete inputs on file
         r.violation(key, what, v, theorem=theorem)
 
 
@@ -179,7 +185,9 @@ def run(r):
     r.coverage["distinct_nontrivial"] = a[1] + b[1]
     r.coverage["rule"] = ("V: generated integer-spine and array programs with 1-3 named functions and their variants under four transformations "
                           "(inline one call by the parenthesised body; abstract a random sub-sequence of main under a fresh name; index macro call vs "
-                          "hand expansion; definitions moved into a module and referred to by path, unused ones private) plus the fill-crossing family "
+                          "hand expansion; definitions moved into a module and referred to by path, unused ones private; index macros nested 2-3 deep whose "
+                          "bodies mention definition-site names (public/private) vs the by-hand expansion placed in the defining scope, used in the defining "
+                          "module / through a module path with same-named outer bindings / after the names were rebound) plus the fill-crossing family "
                           "(expected NOT equivalent); distinct = distinct (P, P') source pairs outside the fill family; "
                           "search: the same families run on the interpreter, values and error messages (no trace, no location) compared; corpus: call "
                           "sites of single-line top-level bindings of tests/*.ua and examples/*.ua replaced by the parenthesised body text")
